@@ -43,4 +43,8 @@ def jobs(tier):
                      tiers=("thorough",) if vt else ("quick", "thorough"), ignore=ART, termination_is_property=True, encodes=["validate_body_helper (VARIANT branch)", "_dbus_type_reader_init_types_only"],
                      bounds=f"signature 'v' whose contained signature is '{vsig}' (concrete), value bytes arbitrary, body length 0..{n}, both byte orders",
                      shape=f"variant containing {vsig}", cost=20 + n))
+    # C01.d (part): mandatory header fields per message type
+    J.append(Job(name="d.mandatory_fields", group="C01.d", harness="harness/C01_mandatory.c", real=["dbus/dbus-marshal-recursive.c", "dbus/dbus-marshal-basic.c", "dbus/dbus-signature.c", "dbus/dbus-list.c"],
+                 env=ENV + ["memfuncs.c", "pool_lock.c"], checks="assert", unwind=14, timeout=300, extra=["--object-bits", "11"], encodes=["check_mandatory_fields", "_dbus_header_get_message_type"],
+                 bounds="message type 1..255; any presence pattern of the 10 known header fields (cached positions arbitrary)", shape="mandatory header fields"))
     return J
